@@ -691,3 +691,5 @@ def coverage_extra(batch):
         'gating': False,
         'breaches_reported_not_gating': st.get('transient-breaches-not-gating', 0),
         'programs_with_breaches': st.get('programs-with-transient-breaches', 0)}}
+
+STATES_MEASURE = ('distinct (layout feature set, name class, outcome) triples plus distinct fired fault sites (call kind, errno, call index)')
